@@ -228,6 +228,8 @@ def run(ctx, rep):
     stripe_selection_rule(P, rep, 'R-C05-9')
     buffer_slot_rule(P, rep, 'R-C05-10')
     deleted_forgotten_rule(P, rep, 'R-C05-12')
+    from .carried import nullable_array_rule
+    nullable_array_rule(P, rep, 'R-C05-13')
     from .C18 import nofollow_probe_rule
     nofollow_probe_rule(P, rep, 'R-C05-11', ('state_check_process',), 'check / fix of recorded empty files, hardlinks and directories', forbidden={'stat', 'stat64', 'access'})
 
